@@ -914,6 +914,27 @@ theorem rawEquals_refl_set_prim (e : Ty) (he : e.isPrim = true) (ids : List Int)
   rw [rawEq_set_prim he h h]
   simp [rawBList_refl he (fun p hp => h p ((SetImpl.mem_sortStable _ _ _).mp hp))]
 
+/-- …symmetric and transitive as well: **`RawEquals` is an equivalence on set values
+of primitive element type** (the first clause of C03 on set-typed values). -/
+theorem rawEquals_equiv_set_prim (e : Ty) (he : e.isPrim = true) (ix iy iz : List Int) (xs ys zs : List Payload)
+    (hx : ∀ p ∈ xs, p.shaped e = true ∧ p.containsMarked = false)
+    (hy : ∀ p ∈ ys, p.shaped e = true ∧ p.containsMarked = false)
+    (hz : ∀ p ∈ zs, p.shaped e = true ∧ p.containsMarked = false) :
+    rawEq ⟨.set e, .sset ix xs⟩ ⟨.set e, .sset iy ys⟩ = rawEq ⟨.set e, .sset iy ys⟩ ⟨.set e, .sset ix xs⟩ ∧
+    (rawEq ⟨.set e, .sset ix xs⟩ ⟨.set e, .sset iy ys⟩ = .ok true →
+      rawEq ⟨.set e, .sset iy ys⟩ ⟨.set e, .sset iz zs⟩ = .ok true →
+      rawEq ⟨.set e, .sset ix xs⟩ ⟨.set e, .sset iz zs⟩ = .ok true) := by
+  have mem := fun (l : List Payload) (h : ∀ p ∈ l, p.shaped e = true ∧ p.containsMarked = false) p
+    (hp : p ∈ SetImpl.sortStable (primLessB e) l) => h p ((SetImpl.mem_sortStable _ _ _).mp hp)
+  rw [rawEq_set_prim he hx hy, rawEq_set_prim he hy hx, rawEq_set_prim he hy hz, rawEq_set_prim he hx hz]
+  refine ⟨?_, fun h1 h2 => ?_⟩
+  · rw [rawBList_symm he (mem xs hx) (mem ys hy)]
+    congr 2
+    exact decide_eq_decide.mpr ⟨Eq.symm, Eq.symm⟩
+  · simp only [Res.ok.injEq, Bool.and_eq_true, decide_eq_true_eq] at h1 h2 ⊢
+    refine ⟨h1.1.trans h2.1, rawBList_trans he (mem xs hx) (mem ys hy) (mem zs hz) ?_ h1.2 h2.2⟩
+    rw [(SetImpl.sortStable_perm _ xs).length_eq, (SetImpl.sortStable_perm _ ys).length_eq]; exact h1.1
+
 /-- `cty.SetVal` of unmarked, quotable members of one primitive type IS the generic
 set built by `Add`ing the inputs in order under `setRules{e}`. -/
 theorem setVal_is_fromList_prim (e : Ty) (he : e.isPrim = true) (l : List Payload) (hne : l ≠ [])
